@@ -70,6 +70,23 @@ type response struct {
 	ID      any    `json:"id"`
 }
 
+// MarshalJSON always emits exactly one of "result" and "error": a successful response whose
+// handler returned a nil result carries "result":null instead of omitting the member.
+func (r response) MarshalJSON() ([]byte, error) {
+	if r.Error != nil {
+		return json.Marshal(struct {
+			Version string `json:"jsonrpc"`
+			Error   *Error `json:"error"`
+			ID      any    `json:"id"`
+		}{r.Version, r.Error, r.ID})
+	}
+	return json.Marshal(struct {
+		Version string `json:"jsonrpc"`
+		Result  any    `json:"result"`
+		ID      any    `json:"id"`
+	}{r.Version, r.Result, r.ID})
+}
+
 func errResponse(code int, data any) response {
 	return response{Version: "2.0", Error: Err(code, data)}
 }
